@@ -211,6 +211,27 @@ func checkC07(p *Prog, r *Report) {
 	addrC, _ := p.ConstVal(Rel("x/burn/types"), "BurnAddress")
 	okAddr := len(bt.Args) == 3 && bt.Args[2].Op == "const" && bt.Args[2].Name == addrC
 	r.Check(okAddr, kp("ORIGIN", "burn.AppModule.EndBlock#address=BurnAddress"), "the address emptied is the designated burn address constant", p.Pos(burnCall.Pos()), addrC, fmt.Sprint(bt.Args))
+	// the burn runs in the block's own context: the Context EndBlock received, unchanged (a context with another gas meter, header,
+	// store or event manager makes the sweep see different balances, run out of gas half way, or write outside the block)
+	okCtx := len(bt.Args) == 3 && bt.Args[1].Op == "param"
+	r.Check(okCtx, kp("ORIGIN", "burn.AppModule.EndBlock#ctx=block-context"), "the burn runs with the very Context EndBlock was given", p.Pos(burnCall.Pos()), "ctx ≡ EndBlock's parameter",
+		fmt.Sprintf("the burn is handed %s instead of EndBlock's own Context: its gas meter / header / stores are not the block's", clip(fmt.Sprint(bt.Args[min(1, len(bt.Args)-1)]), 160)))
+	nRecover := 0
+	for _, fn := range p.ModFuncs {
+		if !InPkgs(fn, "x/burn") || p.IsGenerated(fn) || fn.Blocks == nil {
+			continue
+		}
+		for _, cs := range callSites(fn) {
+			if cs.Name == "builtin:recover" {
+				nRecover++
+				r.Fail(kp("PANIC", "burn#recover@"+FuncName(fn)), "the burn module recovers from no panic (a recovered panic leaves a half-done sweep behind: the send done, the burn not)", p.Pos(cs.Instr.Pos()),
+					FuncName(fn)+" calls recover(): a panic in the middle of the sweep is swallowed and the block commits with the coins moved but not burned")
+			}
+		}
+	}
+	if nRecover == 0 {
+		r.OK(kp("PANIC", "burn#recover#none"), "the burn module recovers from no panic", "x/burn", "no recover() in x/burn")
+	}
 	// no halt: no panic, error not returned
 	noPanic := func(fn *ssa.Function) bool {
 		for _, b := range fn.Blocks {
